@@ -9,6 +9,13 @@ TECH = ('symbolic execution of the real rtamt functions on z3-backed extended-re
 NOTE = ('trusted: z3 5.1, CPython, the symx proxy arithmetic (reals, not IEEE doubles) and the min/max/float/math stubs '
         '(cross-checked concolically on every obligation); specifications, monitor kinds and sizes are enumerated, not solver-decided')
 
+TECH14 = ('symbolic execution of the real parse() on z3-backed symbolic character codes (DART-style path exploration through the antlr4 ATN interpreter and the '
+          'rtamt parser visitor); per path the outcome is compared with an independent recogniser generated from the .g4 files and run on the same symbolic characters; '
+          'interval bounds as z3 reals; counterexamples replayed concretely on the unpatched code')
+NOTE14 = ('trusted: z3 5.1, CPython, the antlr4 runtime with three harness stubs (symbolic InputStream, no lexer DFA edge cache, IntervalSet membership by comparison), the '
+          '.g4 reader and Earley recogniser of vf/g4.py; characters whose text is read are forked per value where the value matters (numeric literals, names that '
+          'exist) and represented by class otherwise; templates and positions are enumerated, not solver-decided')
+
 CLAIMED = {
     'C01': ('6.C01', 'for every enumerated specification (every operator x bounds x trace length, all depth-2 nestings, seeded deeper ones) '
             'z3 shows offline evaluate() == README robustness for all sample values and time-stamps'),
@@ -36,6 +43,11 @@ CLAIMED = {
             '/ the result of a stand-alone (pastified) specification of that name, for all values; four monitor kinds'),
     'C13': ('6.C13', 'time-stamps (not assumed monotone) and the tolerance are symbolic, period/period unit/default unit are enumerated; on every path the concrete counter '
             'is shown by z3 to equal the number of gaps outside [P(1-tol),P(1+tol)]; robustness values are shown independent of the time-stamps'),
+    'C14': ('6.C14', 'BOUNDED to texts within two characters of a template and to the numeric side conditions: the character codes of one or two arbitrary '
+            'characters (any code point) replacing or inserted into each position of the templates are solver variables; the real parse() (generated ANTLR lexer/parser '
+            'interpreted by the antlr4 runtime, error listener, parser visitor) runs on them, every comparison forks, and per path z3-feasible class the outcome must be '
+            'accepted-and-derivable (independent recogniser regenerated from the .g4 files) or RTAMTException; interval bounds are arbitrary non-negative rationals and '
+            'parse() may accept only 0 <= begin <= end; longer edit distances, deep nesting and termination beyond the explored paths are outside the claim'),
     'C15': ('6.C15', 'the finite variant space (aliases read from the lexer grammar of the current tree, separators, parentheses, semicolon/head, LTL front end, every ordered '
             'operator pair against the grouping prescribed by the parser grammar, unless sugar) is enumerated; for each pair of texts z3 shows equal results and equality with '
             'the intended AST semantics for all sample values'),
@@ -50,10 +62,7 @@ CLAIMED = {
     'C20': ('6.C20', 'on each path of (evaluate; explain) over a symbolic violating trace the reported positions are concrete; z3 shows that no second trace agreeing on '
             'those positions satisfies the specification at time 0, and that nothing is reported when the robustness is not negative'),
 }
-NA = {
-    'C14': 'the quantifier ranges over strings and every string is consumed by the ANTLR4 ATN interpreter, which cannot be encoded or '
-           'symbolically executed within reach (CrossHair: ~4 symbolic characters; a regex model would model the .g4 files, not the generated recogniser)',
-}
+NA = {}
 
 def main():
     props = [json.loads(l)['id'] for l in open(os.path.join(ROOT, 'properties.jsonl'))]
@@ -70,8 +79,8 @@ def main():
                 'engine': 'symx',
                 'level_claimed': {'category': 'model_checking', 'text': 'bounded symbolic model checking of the real code: ' + text,
                                   'design_ref': 'DESIGN.md section ' + ref},
-                'level_note': NOTE,
-                'technique': TECH,
+                'level_note': NOTE if p != 'C14' else NOTE14,
+                'technique': TECH if p != 'C14' else TECH14,
             })
     na = [{'property_id': p, 'reason': NA.get(p, 'check not built yet in this round (work in progress)')} for p in props if p not in CLAIMED]
     m = {
